@@ -242,6 +242,9 @@ Section Resolve.
     r <- int_or_float rate ;; unit_interval r ;;;
     raise_if (String.eqb s d) ValueErr ;;;
     raise_if (negb (ngt st en)) ValueErr ;;;
+    (* at most one migration per (source, dest) at any time *)
+    raise_if (existsb (fun o => String.eqb (m_src o) s && String.eqb (m_dst o) d
+                                && nlt (m_end o) st && nlt en (m_start o)) (g_migs g)) ValueErr ;;;
     Ok (mkGraph (g_desc g) (g_units g) (g_gt g) (g_doi g) (g_meta g) (g_demes g)
                 (g_migs g ++ [mkMig s d st en r]) (g_pulses g) (g_index g)).
 
